@@ -9,4 +9,5 @@
 #include "ops_rangeproof.h"
 #include "ops_musig.h"
 #include "ops_surjection.h"
-#define OPS_ALL_FAMILIES ops_generator, ops_ellswift, ops_adaptor, ops_s2c, ops_whitelist, ops_halfagg, ops_bppp, ops_rangeproof, ops_musig, ops_surjection,
+#include "ops_context.h"
+#define OPS_ALL_FAMILIES ops_generator, ops_ellswift, ops_adaptor, ops_s2c, ops_whitelist, ops_halfagg, ops_bppp, ops_rangeproof, ops_musig, ops_surjection, ops_context,
